@@ -36,7 +36,9 @@ Proof.
   cbn [Z.eqb Pos.eqb]. rewrite take_app by apply enc_int_length.
   rewrite dec_enc_int by (unfold min_value in Hr; lia).
   rewrite classify_value by lia.
-  destruct (0 <=? len) eqn:E0; [|lia]. rewrite Hv. reflexivity.
+  destruct (0 <=? len) eqn:E0; [|lia].
+  assert (Z.of_N (desc_byte (wcode w) 1) / 16 =? 15 = false) as Ec by (destruct w; reflexivity).
+  rewrite Ec. rewrite Hv. reflexivity.
 Qed.
 
 (* bcf_descriptor_roundtrip: every type code and every length 0..2^31-1 *)
